@@ -1,6 +1,9 @@
 (* Windowing utilities (C18): limit_df, limit_signal (utils/timeseries.py), split/drop_samples_df,
    flatten_dfs (utils/dataframes.py) — as repaired: optional limits, centring-aware shift by the
-   nearest sample index. *)
+   nearest sample index; limit_df compares the cycles' sample TIMES k / fs (the library's own time
+   axis arange(n) / fs) with the limits and rejects a sampling rate of exactly 0 (repairs 9e31bd8,
+   a212b36).  The pre-repair comparison (sample index against start*fs) is kept as keep_row_legacy /
+   limit_df_legacy and refuted in Proofs/Window.v. *)
 From Coq Require Import List Bool Arith ZArith Floats.PrimFloat Floats.SpecFloat Floats.FloatOps.
 Import ListNotations.
 From ByC Require Import Base.Result Base.ListAux Base.FloatBase Harness.Compare Model.Cycles Model.Epoch.
@@ -34,27 +37,56 @@ Definition limits_ok (start stop : option float) : bool :=
   | None, None => true
   end.
 
+(* the sampling-rate test of limit_df: check_param_range(fs, 'fs', (0, np.inf)) (inclusive bounds; a NaN
+   passes because both comparisons are false) followed by `if fs == 0: raise ValueError` (+0.0 and -0.0) *)
+Definition limit_fs_ok (fs : float) : bool := in_range fs 0 infinity && negb (fs =? 0)%float.
+(* the pre-repair test: fs = 0 was accepted *)
+Definition limit_fs_ok_legacy (fs : float) : bool := in_range fs 0 infinity.
+
+Definition start_or_0 (start : option float) : float := match start with Some a => a | None => 0%float end.
+
+(* int(np.round(x)): ValueError for NaN, OverflowError for an infinity, else the nearest integer *)
+Definition offset_of (x : float) : result Z :=
+  if is_nan x then Err EValue else if is_infinity x then Err EOther else Ok (F2Z_round x).
+
 Section Rows.
 Context {X : Type}.
 Definition wrow := (srow * X)%type.      (* sample columns + all other columns *)
 
+(* a row is kept iff the TIME of its first sample is not before start and (stop given) the time of its last
+   sample is not after stop; times are sample / fs in binary64 (int64 -> float64, then one division) *)
 Definition keep_row (fs : float) (start stop : option float) (r : wrow) : bool :=
-  let a := match start with Some a => a | None => 0%float end in
-  ((a * fs)%float <=? Z2F (s_last (fst r)))%float &&
+  (start_or_0 start <=? Z2F (s_last (fst r)) / fs)%float &&
+  match stop with
+  | Some b => (Z2F (s_next (fst r)) / fs <=? b)%float
+  | None => true
+  end.
+
+(* before the repair: sample indices compared with the products start*fs, stop*fs *)
+Definition keep_row_legacy (fs : float) (start stop : option float) (r : wrow) : bool :=
+  ((start_or_0 start * fs)%float <=? Z2F (s_last (fst r)))%float &&
   match stop with
   | Some b => (Z2F (s_next (fst r)) <=? (b * fs)%float)%float
   | None => true
   end.
 
-Definition limit_df (rows : list wrow) (fs : float) (start stop : option float) (reset : bool)
-  : result (list wrow) :=
-  if negb (in_range fs 0 infinity) then Err EValue
+Definition limit_df_with (fsok : float -> bool) (keep : float -> option float -> option float -> wrow -> bool)
+  (rows : list wrow) (fs : float) (start stop : option float) (reset : bool) : result (list wrow) :=
+  if negb (fsok fs) then Err EValue
   else if negb (limits_ok start stop) then Err EValue
   else
-    let a := match start with Some a => a | None => 0%float end in
-    let kept := filter (keep_row fs start stop) rows in
-    (* the offset is the sample index NEAREST to fs*start (repaired: it used to be truncated) *)
-    Ok (if reset then map (fun r => (shift_srow (F2Z_round (fs * a)%float) (fst r), snd r)) kept else kept).
+    let kept := filter (keep fs start stop) rows in
+    (* the offset is the sample index NEAREST to fs*start (repaired: it used to be truncated); the conversion
+       to int raises when fs*start is NaN or infinite (fs or start infinite / NaN) *)
+    if reset then
+      match offset_of (fs * start_or_0 start)%float with
+      | Ok off => Ok (map (fun r => (shift_srow off (fst r), snd r)) kept)
+      | Err e => Err e
+      end
+    else Ok kept.
+
+Definition limit_df := limit_df_with limit_fs_ok keep_row.
+Definition limit_df_legacy := limit_df_with limit_fs_ok_legacy keep_row_legacy.
 End Rows.
 
 (* limit_signal: samples with start <= t < stop, either limit optional *)
